@@ -176,6 +176,11 @@ func wsPushHandler(req *http.Request, resp *http.Response) {
 
 var srv *http.Server
 
+// missed: unregistered paths that were requested (and refused); lateRoutes: paths registered
+// while the server was running
+var missed []string
+var lateRoutes = map[string]bool{}
+
 var paths = []string{"/", "/a", "/index.html", "/api/v1/items", "/x-y_z.0"}
 
 // ---- one HTTP exchange ------------------------------------------------------------------
@@ -225,8 +230,15 @@ func httpExchange(w *world, k int) {
 	method := []string{"GET", "HEAD", "POST", "PUT"}[r.Intn(4)]
 	registered := r.Chance(4, 5)
 	path := paths[r.Intn(len(paths))]
+	if len(paths) > 5 && r.Chance(1, 3) {
+		path = paths[len(paths)-1] // the route registered last, while the server was running
+	}
 	if !registered {
 		path = "/nobody/" + token(r, 1+r.Intn(8))
+		for lateRoutes[path] {
+			path += "x" // (registered in the meantime)
+		}
+		missed = append(missed, path)
 	}
 	hdrs := map[string]string{"X-Id": id}
 	var keys []string
@@ -536,6 +548,13 @@ func wsBundled(w *world, k int) {
 			// handler has not returned); the route is in use from the next exchange on
 			vt.Quiesce()
 			late := fmt.Sprintf("/late-%d", k)
+			if len(missed) > 0 && r.Bool() {
+				// ... a path that was asked for, and rightly refused, before it existed
+				late = missed[len(missed)-1]
+				missed = missed[:len(missed)-1]
+				run.Count("routes_registered_after_a_request_for_them_was_refused", 1)
+			}
+			lateRoutes[late] = true
 			srv.HandleFunc(late, handler)
 			paths = append(paths, late)
 			run.Count("routes_registered_while_a_websocket_session_is_open", 1)
